@@ -306,6 +306,16 @@ structure EarlierState where
   prev : Option Frag
   deriving Inhabited
 
+/-- `new_child.remove_decoration(start=False, end=True)` on the box rebuilt by `find_earlier_page_break`
+(`_reset_spacing('bottom')`: bottom margin, padding and border become 0 unless `box-decoration-break: clone`). -/
+def Geo.cutBottom (st : PStyle) (g : Geo) : Geo :=
+  if st.clone then g else { g with mb := 0, pb := 0, bb := 0 }
+
+/-- The same on a fragment (the box `find_earlier_page_break` has just rebuilt with `copy_with_children`). -/
+def Frag.cutEnd : Frag → Frag
+  | .para id idx st n g lines => .para id idx st n (g.cutBottom st) lines
+  | .block id idx st g kids => .block id idx st (g.cutBottom st) kids
+
 /-- The line-box case of `find_earlier_page_break` (orphans / widows), on a paragraph fragment. -/
 def findEarlierPara (id idx : Nat) (st : PStyle) (n : Nat) (g : Geo) (lines : List (Nat × Rat))
     : Option (Frag × Resume) :=
@@ -341,10 +351,12 @@ def findEarlierGo : List Frag → EarlierState
         -- previous_in_flow = child; then look inside the child
         if !avoidsPage x.st.brkInside then
           match findEarlierFrag x with
-          | some (x', r) => { found := some ([x'], .node x.idx (some r)), prev := some x }
+          -- new_child = child.copy_with_children(new_grand_children); new_child.remove_decoration(end=True)
+          | some (x', r) => { found := some ([x'.cutEnd], .node x.idx (some r)), prev := some x }
           | none => { found := none, prev := some x }
         else { found := none, prev := some x }
-/-- `find_earlier_page_break(child.children)` + `child.copy_with_children(new_grand_children)`. -/
+/-- `find_earlier_page_break(child.children)` + `child.copy_with_children(new_grand_children)` (the caller,
+`findEarlierGo`, then removes the bottom decoration of the copy). -/
 def findEarlierFrag : Frag → Option (Frag × Resume)
   | .para id idx st n g lines => findEarlierPara id idx st n g lines
   | .block id idx st g kids =>
